@@ -47,15 +47,18 @@ def run(tier, seed, replay_path=None):
     deep = tier == "thorough"
     wd = tlc.new_workdir("c10")
     try:
-        files = decfam.tlc_files("C09", 3, 2, wd, o, check=False, what="DecGen C09 universe (files)")
-        cfg = tlc.cfg_text(constants=dict(Profile="C09", MaxStmts=3, MaxLines=2 if deep else 1, DoEmit=False, Build=False),
-                           invariants=["MachineIsParsed", "C10_Count"])
-        r = tlc.run("DecGen", cfg, workdir=wd, keep_records=False)
-        o.add_tlc(r, "model check C10_Count (|choices| = sum of products) on the acyclic universe")
+        # one TLC run: every file of the fixed-layout universe, lemmas on the unfolding operators checked on the way
+        cfg = tlc.cfg_text(constants=dict(Profile="C10", MaxStmts=0, MaxLines=2, DoEmit=True, Build=False),
+                           invariants=["MachineIsParsed", "C09_Lemmas", "C10_Count"])
+        r = tlc.run("DecGen", cfg, workdir=wd)
+        o.add_tlc(r, "DecGen C10 universe (alias subsets x blocks for A, B, C): C09_Lemmas, C10_Count; files emitted")
         if r.violated:
             o.violate("spec-invariant", {"violated": r.violated}, r.stdout_path)
+        files = [x["v"] for x in r.by_tag("case")]
+        if deep:
+            files += decfam.tlc_files("C09", 3, 2, wd, o, check=False, what="DecGen C09 universe (sequences of <= 3 statements)")
         decfam.reachability("C09", "NeverNested", wd, o)
-        sim = decfam.tlc_files("C09", 7, 3, wd, o, check=False, simulate=1500 if deep else 200, seed=seed)
+        sim = decfam.tlc_files("C09", 6, 2, wd, o, check=False, simulate=1000 if deep else 100, seed=seed)
         files = [f for f in files if any(s["k"] == "Decay" and s["lines"] for s in f["src"])]
         o.notes["universe_files"] = len(files)
         files = window(files, 20000 if deep else 600, seed, o, "exhaustive") + sim
